@@ -319,18 +319,26 @@ def case_subsample(ctx, spec, rng, lines, checks):
         expect_q = [sub[i] for i in qi]
     elif excl:
         sal = sorted(labeled + sub)
-        lines.append(f"subsal {il(labeled)} {il(sub)} {il(qi)}")
-        ic = sorted(sal.index(s) for s in sub)
-        checks.append((case, " ".join(map(str, sal)) + " | " + " ".join(map(str, np.asarray(rec["candidates"]).tolist())) + " | " + " ".join(str(sal[i]) for i in qi)))
-        if rec["X"] is not None and not np.array_equal(rec["X"], data["X"][sal]):
-            ctx.disagree("SubSamplingWrapper(exclude_non_subsample): inner X is not X[sort(labeled ++ sub-sample)]", case_summary(case), "X[sal]", "different rows")
-        inner_rows_caller = np.full((len(Ui), n_cols), np.nan)
-        inner_rows_caller[:, sal] = Ui
-        expect_q = [sal[i] for i in qi]
+        fits = Ui.ndim == 2 and Ui.shape[1] == len(sal) and all(i < len(sal) for i in qi)
+        if fits:
+            lines.append(f"subsal {il(labeled)} {il(sub)} {il(qi)}")
+            checks.append((case, " ".join(map(str, sal)) + " | " + " ".join(map(str, np.asarray(rec["candidates"]).tolist())) + " | " + " ".join(str(sal[i]) for i in qi)))
+            if rec["X"] is not None and not np.array_equal(rec["X"], data["X"][sal]):
+                ctx.disagree("SubSamplingWrapper(exclude_non_subsample): inner X is not X[sort(labeled ++ sub-sample)]", case_summary(case), "X[sal]", "different rows")
+        if not fits:
+            # the wrapped strategy was not handed X[sort(labeled ++ sub-sample)]: the translation model does not apply;
+            # the property clauses below are still evaluated on the wrapper's own output
+            ctx.disagree("SubSamplingWrapper(exclude_non_subsample): the wrapped strategy saw a training set of another size than "
+                         "labeled ++ sub-sample", case_summary(case), f"{len(sal)} rows", f"{Ui.shape} utilities")
+            inner_rows_caller, expect_q = None, None
+        else:
+            inner_rows_caller = np.full((len(Ui), n_cols), np.nan)
+            inner_rows_caller[:, sal] = Ui
+            expect_q = [sal[i] for i in qi]
     else:
         inner_rows_caller = Ui
         expect_q = qi
-    for r_in, r_out in zip(inner_rows_caller, U):
+    for r_in, r_out in zip(inner_rows_caller if inner_rows_caller is not None else [], U):
         lines.append(f"subrow {n_cols} {il(cand_idx)} {il(sub)} " + " ".join(f2bits(x) for x in r_in))
         checks.append((case, " ".join(f2bits(x) for x in r_out)))
     # --- property oracle on the real output -------------------------------------------------
@@ -339,7 +347,7 @@ def case_subsample(ctx, spec, rng, lines, checks):
         bad = f"sub-sample {sub} is not min(max_candidates, #candidates)={min(m, len(cand_idx))} distinct candidates"
     elif not set(q) <= set(sub):
         bad = f"picked {q} outside the sub-sample {sub}"
-    elif q != expect_q:
+    elif expect_q is not None and q != expect_q:
         bad = f"picks {q} are not the wrapped strategy's picks {expect_q} in the caller's index space"
     elif U.shape != (len(q), n_cols):
         bad = f"utilities shape {U.shape} != ({len(q)}, {n_cols})"
@@ -351,7 +359,7 @@ def case_subsample(ctx, spec, rng, lines, checks):
                 bad = "utilities of non-candidates are not NaN"
             elif not np.all(np.isneginf(U[k, other])):
                 bad = "utilities of candidates outside the sub-sample are not -inf"
-            elif not np.array_equal(U[k, sub], inner_rows_caller[k, sub], equal_nan=True):
+            elif inner_rows_caller is not None and not np.array_equal(U[k, sub], inner_rows_caller[k, sub], equal_nan=True):
                 bad = "utilities on the sub-sample differ from the wrapped strategy's"
             if bad:
                 break
